@@ -41,6 +41,15 @@ def run(ctx):
     ctx.rule(purity)
     ctx.rule(fc.banks_stateless, "R-C05-pure")
     ctx.rule(scale_names)
+    ctx.rule(scales_read_parameters)
+
+
+def scales_read_parameters(ctx, R="R-C05-spacing"):
+    """the banks place their edges with scale.hertz_to_scale / scale_to_hertz of the scaling function they are given: the edges
+    lie between low_hz and high_hz only if the two maps read the same, current parameters (a value derived from a parameter when
+    the scaling object was built goes stale when the public attribute is re-assigned, and the two maps stop being inverses)"""
+    from .c19 import no_derived_state
+    no_derived_state(ctx, R)
 
 
 def range_rule(ctx, R="R-C05-range"):
